@@ -27,7 +27,10 @@ Open Scope N_scope.
 
 def vocab(lang):
     """(binary pairs, unary pairs) as the translator read them from grammar/<lang>.py"""
-    b, u = rc.gen_render.grammar_labels(rc.env.REPO, lang)
+    try:
+        b, u = rc.gen_render.grammar_labels(rc.env.REPO, lang)
+    except rc.gen_render.Fail:
+        return [], []           # the translator obligation (translate:render) is already broken; the oracle still runs
     return b, u
 
 
